@@ -19,6 +19,7 @@ from dsim import kernel
 from dsim import spmd
 from dsim import xmesh
 
+MAX_MINIMISED_PER_RUN = 2
 PROP = 'C07'
 
 
@@ -253,7 +254,8 @@ def run_one(seed, tier, opts, prop):
     i = v['op_index']
     case = {'config': cfg, 'ops': [ops[i]], 'faults': faults,
             'sched_seeds': [sched_seeds[i]]}
-    mini, evals = minimise(case, v['oracle'])
+    mini, evals = (minimise(case, v['oracle'])
+                   if len(out_v) < MAX_MINIMISED_PER_RUN else (case, 0))
     mlog, mv, _, mchoices = execute(mini['config'], mini['ops'], mini['faults'],
                                     mini['sched_seeds'])
     mv = [x for x in mv if x['oracle'] == v['oracle']] or [v]
